@@ -42,6 +42,7 @@ theorem dropPathsOf_spec (old : Net) (L : List (Nat × Nat)) :
       · split <;> split <;> simp_all
     · simp [e0]
 
+omit [DecidableEq α] in
 theorem dropPaths_spec (old : Net) (RL : List (α × RouterInfo)) :
     ∀ (p : List ((Net × Nat) × α)),
       RL.Pairwise (fun x y => ∀ d, has d x.2.dnets = true → has d y.2.dnets = false) →
